@@ -10,7 +10,7 @@ EXPLANATION = ("static analysis (MIR abstract interpretation): each position act
                "weights and clears the user's cursor/history only for a still-open position; the weight formula rejects durations "
                "outside [1 day, 1 year] (best effort on the helper)")
 ASSUMPTIONS = ["total >= sum of users under floor rounding / saturating subtraction is a numeric history fact and is not decided", "<= 16x and monotonicity are not decided"]
-TECHNIQUE = "static analysis: twin-write agreement of storage effects, operator-class provenance of the written deltas"
+TECHNIQUE = "static analysis: twin-write agreement of storage effects, operator-class provenance of the written deltas, carried-snapshot dependence shared with C06"
 LEVEL_TEXT = "Structural obligations over all paths of the four position actions; exhaustive over CFG paths."
 LEVEL_NOTE = "Not decided: numeric relation between total and per-user weights; curve shape."
 FM = "farm_manager"
